@@ -247,7 +247,8 @@ def unparse(deck, tk=None):
     for part, vals in deck.imp_cards.items():
         L += wrap('imp:%s %s' % (part, ' '.join(tk.tok(v) for v in vals)))
     for num, comp in deck.mats.items():
-        L += wrap('m%d %s' % (num, ' '.join('%s %s' % (z, f) for z, f in comp)))
+        mnem = 'M' if (getattr(deck, 'mat_upper', 0) and (num + deck.mat_upper) % 2 == 0) else 'm'     # the mnemonic may be upper case
+        L += wrap('%s%d %s' % (mnem, num, ' '.join('%s %s' % (z, f) for z, f in comp)))
     L.append('')
     return '\n'.join(L), tk
 
@@ -704,7 +705,7 @@ def to_json(deck, env):
         'imp_ref': {k: [_num_json(v, env) for v in vals] for k, vals in getattr(deck, 'imp_ref', {}).items()},
         'lattice_opt': deck.lattice_opt,
         'dot_spelling': bool(getattr(deck, 'dot_spelling', False)),
-        'fill_shorthand': bool(getattr(deck, 'fill_shorthand', False)), 'opts_order': getattr(deck, 'opts_order', None),
+        'fill_shorthand': bool(getattr(deck, 'fill_shorthand', False)), 'mat_upper': getattr(deck, 'mat_upper', 0), 'bc_moved': {str(k): [_num_json(v, env) for v in t] for k, t in getattr(deck, 'bc_moved', {}).items()}, 'opts_order': getattr(deck, 'opts_order', None),
         'c10': [{'mat': i['mat'], 'entries': [[z, _num_json(f, env), sn] for z, f, sn in i['entries']], 'mixed': i['mixed'],
                  'kwpos': i['kwpos'], 'rho': _num_json(i['rho'], env), 'rho_neg': i['rho_neg'],
                  'uses': [[_num_json(r, env), ng, cid] for r, ng, cid in i.get('uses', [])]} for i in getattr(deck, 'c10', [])],
@@ -763,6 +764,8 @@ def from_json(j):
     d.lattice_opt = j.get('lattice_opt', [])
     d.dot_spelling = bool(j.get('dot_spelling', False))
     d.fill_shorthand = bool(j.get('fill_shorthand', False))
+    d.mat_upper = j.get('mat_upper', 0)
+    d.bc_moved = {int(k): [_fr(v) for v in t] for k, t in j.get('bc_moved', {}).items()}
     d.opts_order = j.get('opts_order')
     if j.get('c10'):
         d.c10 = [{'mat': i['mat'], 'entries': [(z, _fr(f), sn) for z, f, sn in i['entries']], 'mixed': i['mixed'], 'kwpos': i['kwpos'],
